@@ -78,11 +78,11 @@ def extract_facts(repo=REPO, features=None):
             raise Inconclusive("fact extraction failed (does the tree compile?):\n" + (r.stderr or r.stdout)[-3000:])
         shutil.rmtree(d, ignore_errors=True)
         os.rename(tmp, d)
-        # prune old entries (keep 6 most recent)
+        # prune old entries (keep the 256 most recent, ~3 MB each)
         ents = [os.path.join(CACHE, e) for e in os.listdir(CACHE)
                 if os.path.isdir(os.path.join(CACHE, e)) and not e.endswith(".tmp")]
         ents.sort(key=os.path.getmtime, reverse=True)
-        for e in ents[48:]:
+        for e in ents[256:]:
             shutil.rmtree(e, ignore_errors=True)
         return d, key, False
     finally:
